@@ -1426,6 +1426,9 @@ func (g *gen) failingPiece() {
 	}
 	kinds = append(kinds, []struct{ kind, body string }{
 		{"index-assign-out-of-range", ""}, // two tags, see below
+		{"assign-to-loop-local-variable", ""},
+		{"assign-to-function-local-variable", ""},
+		{"assign-to-undeclared-variable", ""},
 		{"iterate-non-iterable", ""},
 		{"toJSON-of-func", "toJSON(pv)"},
 		{"missing-field", "obj.Nofield"},
@@ -1463,6 +1466,23 @@ func (g *gen) failingPiece() {
 		g.nl()
 		g.p.FailLine = g.cur.line
 		g.tag("<%", a+"[5] = 1", "%>")
+	case "assign-to-loop-local-variable":
+		v := g.fresh("tmp")
+		g.tag("<%", "for (x) in [1, 2] { let "+v+" = x }", "%>")
+		g.nl()
+		g.p.FailLine = g.cur.line
+		g.tag("<%", v+" = 5", "%>")
+	case "assign-to-function-local-variable":
+		v, f := g.fresh("tmp"), g.fresh("f")
+		g.tag("<%", "let "+f+" = fn() { let "+v+" = 1 }", "%>")
+		g.nl()
+		g.tag("<%=", f+"()", "%>")
+		g.nl()
+		g.p.FailLine = g.cur.line
+		g.tag("<%", v+" = 5", "%>")
+	case "assign-to-undeclared-variable":
+		g.p.FailLine = g.cur.line
+		g.tag("<%", g.fresh("undeclared")+" = 5", "%>")
 	case "iterate-non-iterable":
 		g.p.FailLine = g.cur.line
 		g.tag("<%=", "for (x) in n1 {", "%>")
